@@ -289,6 +289,28 @@ pub fn c09(cx: &mut Ctx) {
             cx.op("reason");
         }
     }
+    // answers with bare-LF line ends (the parser takes them) while awaiting 100: a 100, a refusal with and without fields
+    for ans in ["HTTP/1.1 100 Continue\n\n", "HTTP/1.1 403 Forbidden\n\n", "HTTP/1.1 417 No\nContent-Length: 0\n\n", "HTTP/1.1 403 Forbidden\r\n\n", "HTTP/1.1 100 Continue\n\r\n"] {
+        for req in ["PUT HTTP/1.1 http://a.test/ 1 expect 3130302d636f6e74696e7565", "POST HTTP/1.1 http://a.test/ 2 expect 3130302d636f6e74696e7565 content-length 33"] {
+            for looks in 1..=2 {
+                cx.case("lf100");
+                if cx.rec.new_flow(req) != "ok" { continue; }
+                cx.op("proceed"); cx.op("write 1000"); cx.op("proceed");
+                if cx.rec.state() != "await100" { continue; }
+                let mut stream = ans.as_bytes().to_vec();
+                stream.extend_from_slice(b"HTTP/1.1 200 OK\r\nContent-Length: 0\r\n\r\n");
+                let mut soff = 0usize;
+                if looks == 2 { cx.op(&format!("read100 {}", hx(&stream[..9]))); cx.op("keep100"); }
+                let res = cx.op(&format!("read100 {}", hx(&stream[..ans.len()])));
+                if let Some(n) = res.strip_prefix("count ") { soff = n.parse().unwrap_or(0); }
+                cx.op("keep100");
+                cx.op("proceed");
+                if cx.rec.state() == "sendBody" { cx.op("bwrite 616263 100"); cx.op("bwrite - 100"); cx.op("canproceed"); cx.op("proceed"); }
+                if cx.rec.state() == "recvResponse" { cx.op(&format!("resp {}", hx(&stream[soff..]))); cx.op("canproceed"); cx.op("proceed"); }
+                cx.op("close?");
+            }
+        }
+    }
     // a second hop: the flow as_new_flow returns is used to completion (request with repeated / list-valued
     // fields among those a redirect drops)
     for req in ["GET HTTP/1.1 http://a.test/ 3 cookie 613d31 cookie 623d32 x-a 31",
@@ -320,6 +342,29 @@ pub fn c09(cx: &mut Ctx) {
     }
     let n = if cx.thorough { 60000 } else { 5000 };
     random_histories(cx, n);
+    // the size ladder over what arrives while the flow awaits 100 (reason phrase of a 100 and of a refusal): the
+    // successor state follows from what was sent, at every length
+    for l in super::ladder(cx.thorough, 65536) {
+        for (ai, ans) in [format!("HTTP/1.1 100 {}\r\n\r\n", "c".repeat(l)), format!("HTTP/1.1 403 {}\r\nContent-Length: 0\r\n\r\n", "n".repeat(l))].iter().enumerate() {
+            cx.case("ladder");
+            let _ = ai;
+            if cx.rec.new_flow("PUT HTTP/1.1 http://a.test/ 1 expect 3130302d636f6e74696e7565") != "ok" { continue; }
+            cx.op("proceed"); cx.op("write 1000"); cx.op("proceed");
+            if cx.rec.state() != "await100" { continue; }
+            let mut stream = ans.as_bytes().to_vec();
+            stream.extend_from_slice(b"HTTP/1.1 200 OK\r\nContent-Length: 0\r\n\r\n");
+            let mut soff = 0usize;
+            cx.op(&format!("read100 {}", hx(&stream[..ans.len() - 1])));
+            cx.op("keep100");
+            let res = cx.op(&format!("read100 {}", hx(&stream[..ans.len()])));
+            if let Some(n) = res.strip_prefix("count ") { soff = n.parse().unwrap_or(0); }
+            cx.op("keep100");
+            cx.op("proceed");
+            if cx.rec.state() == "sendBody" { cx.op("bwrite 616263 100"); cx.op("bwrite - 100"); cx.op("canproceed"); cx.op("proceed"); }
+            if cx.rec.state() == "recvResponse" { cx.op(&format!("resp {}", hx(&stream[soff..]))); cx.op("canproceed"); cx.op("proceed"); }
+            cx.op("close?");
+        }
+    }
 }
 
 /// drive a request/response exchange given as explicit pieces; asks the verdict in redirect and cleanup
@@ -422,6 +467,21 @@ pub fn c10(cx: &mut Ctx) {
             }
         }
     }
+    // the shortest answers a server can give while the client awaits 100 (status line without reason phrase, no
+    // fields, bare-LF line ends), to requests that announce a body of 5 bytes, of 0 bytes, or a chunked one
+    for answer in ["HTTP/1.1 204\r\n\r\n", "HTTP/1.1 304\r\n\r\n", "HTTP/1.1 301\r\n\r\n", "HTTP/1.1 101\r\n\r\n", "HTTP/1.1 204 \r\n\r\n", "HTTP/1.1 403\r\nContent-Length: 0\r\n\r\n",
+                   "HTTP/1.1 417 No\r\nContent-Length: 0\r\n\r\n", "HTTP/1.1 403 Forbidden\n\n", "HTTP/1.1 204 No\nX: y\n\n", "HTTP/1.1 204\n\n", "HTTP/1.1 200 OK\r\nTransfer-Encoding: chunked\r\n\r\n0\r\n\r\n",
+                   "HTTP/1.1 302 F\r\nLocation: /n\r\n\r\n", "HTTP/1.1 100 Continue\n\nHTTP/1.1 204 N\r\n\r\n", "HTTP/1.1 100\r\n\r\nHTTP/1.1 204 N\r\n\r\n"] {
+        for cl in [Some("5"), Some("0"), Some("00"), None] {
+            for m in ["POST", "PUT"] {
+                cx.case("short");
+                let mut hs: Vec<(&str, &[u8])> = vec![("expect", b"100-continue")];
+                if let Some(v) = cl { hs.insert(0, ("content-length", v.as_bytes())); }
+                let req = format!("{} HTTP/1.1 http://a.test/p {}", m, super::hdrs(&hs));
+                c10_exchange(cx, &req, 3, answer.as_bytes());
+            }
+        }
+    }
     let conn_req: [&[(&str, &[u8])]; 4] = [&[], &[("connection", b"close")], &[("connection", b"keep-alive")], &[("connection", b"keep-alive"), ("connection", b"close")]];
     let conn_resp: [&str; 4] = ["", "Connection: close\r\n", "Connection: keep-alive\r\n", "Connection: keep-alive\r\nconnection: close\r\n"];
     let statuses: [(u16, &str); 3] = [(200, ""), (302, "Location: /next\r\n"), (204, "")];
@@ -457,6 +517,24 @@ pub fn c10(cx: &mut Ctx) {
                     }
                 }
             }
+        }
+    }
+    // the size ladder over the fields the verdict is read from: a Connection value with many tokens in front of
+    // `close`, other long fields in front of it, a long reason phrase, on both sides
+    for l in super::ladder(cx.thorough, if cx.thorough { 32768 } else { 8192 }) {
+        let tokens = "keep-alive, ".repeat(l / 12);
+        let pad = "p".repeat(l);
+        let heads = [format!("HTTP/1.1 200 R\r\nConnection: {}close\r\nContent-Length: 0\r\n\r\n", tokens), format!("HTTP/1.1 200 R\r\nX-Pad: {}\r\nConnection: close\r\nContent-Length: 0\r\n\r\n", pad),
+                     format!("HTTP/1.1 200 {}\r\nContent-Length: 0\r\nconnection: close\r\n\r\n", pad), format!("HTTP/1.1 200 R\r\nX-Pad: {}\r\nContent-Length: 0\r\n\r\n", pad), format!("HTTP/1.0 200 R\r\nX-Pad: {}\r\nContent-Length: 0\r\n\r\n", pad)];
+        for head in &heads {
+            cx.case("ladder");
+            c10_exchange(cx, "GET HTTP/1.1 http://a.test/p 0", 0, head.as_bytes());
+        }
+        if l <= 8193 {
+            cx.case("ladreq");
+            let v = format!("{}close", tokens);
+            let req = format!("GET HTTP/1.1 http://a.test/p {}", super::hdrs(&[("x-pad", pad.as_bytes()), ("connection", v.as_bytes())]));
+            c10_exchange(cx, &req, 0, b"HTTP/1.1 200 R\r\nContent-Length: 0\r\n\r\n");
         }
     }
 }
@@ -617,6 +695,36 @@ pub fn c12(cx: &mut Ctx) {
             }
         }
     }
+    // (6b) lines far longer than usual where a line end is searched for: a 9 KB and a 70 KB trailer field, a 9 KB
+    // chunk extension (refused), whole and in pieces, in both APIs
+    for (li, body) in [format!("3\r\nabc\r\n0\r\nX-Sig: {}\r\n\r\n", "s".repeat(9000)), format!("0\r\nA: 1\r\nX-Sig: {}\r\nB: 2\r\n\r\n", "t".repeat(70000)),
+                       format!("3;{}\r\nabc\r\n0\r\n\r\n", "e".repeat(9000)), format!("0\r\n{}", "u".repeat(9000))].iter().enumerate() {
+        for sched in 0..3 {
+            cx.case("longline");
+            let _ = li;
+            let w = body.as_bytes();
+            if sched < 2 {
+                if !super::bodyr::to_recv_body(cx, "GET", heads[0]) { continue; }
+            } else {
+                if cx.rec.new_call("nobody", "GET HTTP/1.1 http://a.test/p 0") != "ok" { continue; }
+                cx.op("cwrite 4096"); cx.op("cinto");
+                cx.op(&format!("cresp {}", hx(heads[0])));
+                if cx.op("cbody") != "state callRecvBody" { continue; }
+            }
+            let mut off = 0;
+            let step = if sched == 1 { 4000 } else { w.len() };
+            let mut upto = step.min(w.len());
+            for _ in 0..60 {
+                let res = cx.op(&format!("{} {} 100", if sched < 2 { "bread" } else { "cread" }, hx(&w[off..upto])));
+                let p: Vec<&str> = res.split(' ').collect();
+                if p[0] != "bytes" { break; }
+                let i: usize = p[1].parse().unwrap_or(0);
+                off += i;
+                if i == 0 && p[2] == "-" { if upto >= w.len() { break; } upto = (upto + step).min(w.len()); }
+            }
+            if sched < 2 { cx.op("canproceed"); cx.op("proceed"); } else { cx.op("cended"); }
+        }
+    }
     // (7) hostile Location values, then as_new_flow and the flow it returns: errors are fine, panics are not
     let locs: [&[u8]; 26] = [b"", b" ", b"\t", b"#", b"#frag", b"?", b"?q", b"/", b"//", b"///", b"//b.test", b":", b"://", b"http:", b"http://",
         b"http://[::1", b"http://a.test:99999999999/", b"\\x", b"%", b"%zz", b"..", b"../../../..", b"\xff\xfe", b"http://\xe9.test/", b"a\x00b", b"HTTP://B.TEST:80/../%2e%2e/x?y#z"];
@@ -703,6 +811,49 @@ pub fn c12(cx: &mut Ctx) {
         bigreq.extend(std::iter::repeat(b'a').take(65536));
         bigreq.extend_from_slice(b": v\r\n\r\n");
         cx.op(&format!("parse-req 4 {}", hx(&bigreq)));
+    }
+    // the size ladder of bytes without any line end, offered wherever a line end is searched for: awaiting 100,
+    // the response head, a chunk-size line, the trailer section
+    let qmax = super::ladder_q(cx.thorough).last().copied().unwrap_or(0);
+    for l in super::ladder(cx.thorough, 131072) {
+        let junk: Vec<u8> = (0..l).map(|i| b"aZ09 :;=\t"[i % 9]).collect();
+        cx.case("ladder");
+        cx.rec.new_flow("POST HTTP/1.1 http://a.test/ 1 expect 3130302d636f6e74696e7565");
+        cx.op("proceed"); cx.op("write 1000"); cx.op("proceed");
+        for pre in [&b""[..], &b"HTTP/1.1 100 "[..], &b"HTTP/1.1 100 Continue\r\nX: "[..]] {
+            if cx.rec.state() != "await100" { break; }
+            if pre.ends_with(b"X: ") && l > qmax { continue; }
+            let mut w = pre.to_vec(); w.extend_from_slice(&junk);
+            cx.op(&format!("read100 {}", hx(&w)));
+            cx.op("keep100");
+        }
+        cx.op("proceed");
+        cx.case("ladder");
+        if super::to_recv_response(cx, "GET", "HTTP/1.1") {
+            for pre in [&b""[..], &b"HTTP/1.1 200 "[..], &b"HTTP/1.1 200 OK\r\nX: "[..], &b"HTTP/1.1 302 F\r\nLocation: /n\r\nX: "[..]] {
+                if cx.rec.state() != "recvResponse" { break; }
+                if pre.ends_with(b"X: ") && l > qmax { continue; }
+                let mut w = pre.to_vec(); w.extend_from_slice(&junk);
+                cx.op(&format!("resp {}", hx(&w)));
+                cx.op("canproceed");
+            }
+        }
+        for pre in [&b""[..], &b"3\r\nabc\r\n0\r\n"[..], &b"3\r\nabc\r\n0\r\nT: "[..], &b"3;"[..]] {
+            cx.case("ladder");
+            if !super::bodyr::to_recv_body(cx, "GET", heads[0]) { continue; }
+            let mut w = pre.to_vec(); w.extend_from_slice(&junk);
+            let mut off = 0;
+            for _ in 0..4 {
+                let res = cx.op(&format!("bread {} 100", hx(&w[off..])));
+                let p: Vec<&str> = res.split(' ').collect();
+                if p[0] != "bytes" { break; }
+                let i: usize = p[1].parse().unwrap_or(0);
+                off += i;
+                if i == 0 && p[2] == "-" { break; }
+            }
+            cx.op("canproceed");
+            cx.op("proceed");
+        }
     }
 }
 
